@@ -5,9 +5,9 @@
     workload [ops] starts in, its outcomes are [spec_outcomes fmt ops], in which no state occurs.
     Mutation of CPython objects, other module globals and real threads are outside any Gallina model: PARTIAL. *)
 From OfxV Require Import Base.Prelude Model.Dispatch Proofs.DispatchProofs.
-Theorem model_functions_total_on_inputs : forall (rereg : bool) (fmt : inst -> pyval -> result text),
-  (forall i j v, fmt i v = fmt j v) ->
+Theorem model_functions_total_on_inputs : forall (rereg rebinds : bool) (fmt : inst -> pyval -> result text),
+  (rebinds = true \/ forall i j v, fmt i v = fmt j v) ->
   forall hist ops : list op,
-    snd (run_ops rereg fmt (fst (run_ops rereg fmt init_state hist)) ops) = spec_outcomes fmt ops.
+    snd (run_ops rereg rebinds fmt (fst (run_ops rereg rebinds fmt init_state hist)) ops) = spec_outcomes fmt ops.
 Proof. exact model_functions_total_on_inputs_thm. Qed.
 Print Assumptions model_functions_total_on_inputs.
